@@ -34,27 +34,21 @@ JudgeHdc(r) ==
       coords == UNION {asSets[i] : i \in 1..nsets}
       npts   == SumSeq([i \in 1..nsets |-> Len(r.sets[i])])
       region == Cells(r.R)
-      bcomps == ComponentsFast(bdef, r.shape, full)
+      rcomps == ComponentsOfMask(r.R, r.shape, full)   \* connected regions (= Components, HDC.tla: FastIsDef)
   IN <<
     <<"CoordsAreCellCentres", r.offgrid = 0 /\ ~r.ragged>>,
     <<"CoordsAreBoundary", coords = bdef>>,
     <<"EachOnce", npts = Cardinality(coords)>>,
     (* every returned set lies inside one connected component of the enclosed region *)
     <<"SetsDoNotMixRegions",
-        \A i \in 1..nsets :
-           asSets[i] # {} =>
-             LET c0 == r.sets[i][1]
-                 own == ComponentOfFast(c0, asSets[i], r.shape, full)
-             IN /\ asSets[i] \subseteq region
-                (* a set that is connected in itself (in particular a connected piece  *)
-                (* of the boundary) lies in one component; otherwise flood the region *)
-                (* from one of its cells                                               *)
-                /\ (asSets[i] \in bcomps \/ own = asSets[i] \/
-                    asSets[i] \subseteq ComponentOfFast(c0, region, r.shape, full))>>,
-    (* one coordinate set per connected piece of the boundary *)
-    <<"OneSetPerBoundaryPiece", {asSets[i] : i \in 1..nsets} = bcomps /\ nsets = Cardinality(bcomps)>>,
+        \A i \in 1..nsets : asSets[i] # {} => \E K \in rcomps : asSets[i] \subseteq K>>,
+    (* one coordinate set per region: all boundary cells of that region, also when the      *)
+    (* region has holes and its boundary consists of several pieces                         *)
+    <<"OneSetPerRegion",
+        /\ {asSets[i] : i \in 1..nsets} = {K \cap bdef : K \in rcomps}
+        /\ nsets = Cardinality(rcomps)>>,
     <<"SingleIs2DArray",
-        /\ (r.isarray <=> Cardinality(bcomps) = 1)
+        /\ (r.isarray <=> Cardinality(rcomps) = 1)
         /\ (r.isarray => r.arrshape = <<Cardinality(bdef), n>>)>>,
     <<"OrderIsLineSorter", (r.isarray /\ n = 2 /\ r.offgrid = 0) => r.sets[1] = r.resorted>>
   >>
